@@ -107,6 +107,21 @@ type pres struct {
 	back  bool // set the back-reference (Trip.Vehicle / the vehicle's trip's Vehicle)
 }
 
+// Dur is the duration a token of spec/TripHash.tla (DurEnc) stands for.
+func Dur(tok int) time.Duration {
+	switch tok {
+	case 10:
+		return 1500 * time.Millisecond
+	case 11:
+		return 400 * time.Millisecond
+	case 12:
+		return -400 * time.Millisecond
+	case 13:
+		return time.Duration(1<<32+1) * time.Second
+	}
+	return time.Duration(tok) * time.Second
+}
+
 func tm(n int, z *time.Location) time.Time { return time.Unix(int64(n), 0).In(z) }
 
 func ev(o abs.Opt[Ev], p pres) *gtfs.StopTimeEvent {
@@ -120,7 +135,7 @@ func ev(o abs.Opt[Ev], p pres) *gtfs.StopTimeEvent {
 		out.Time = &t
 	}
 	if e.Delay.IsSome() {
-		d := time.Duration(e.Delay.Val()) * time.Second
+		d := Dur(e.Delay.Val())
 		out.Delay = &d
 	}
 	if e.Unc.IsSome() {
@@ -140,7 +155,7 @@ func u32(o abs.Opt[int]) *uint32 {
 
 func BuildTrip(t Trip, p pres) *gtfs.Trip {
 	out := &gtfs.Trip{ID: gtfs.TripID{ID: str(t.ID), RouteID: str(t.Route), DirectionID: gtfs.DirectionID(t.Dir),
-		HasStartDate: t.HasSD, HasStartTime: t.HasST, StartTime: time.Duration(t.St) * time.Second,
+		HasStartDate: t.HasSD, HasStartTime: t.HasST, StartTime: Dur(t.St),
 		ScheduleRelationship: gtfsrt.TripDescriptor_ScheduleRelationship(t.Sr)}, IsEntityInMessage: p.inMsg}
 	if t.Sd != -1 { // -1 stands for time.Time{}; the flag and the value are independent fields
 		out.ID.StartDate = tm(t.Sd, p.zone)
